@@ -59,9 +59,9 @@ func EligibleMask(locs ...common.Location) common.Hash {
 
 // Regimes lists prime-terminus numbers on both sides of every fork the EVM layer consults.
 var Regimes = []uint64{
-	100,                                        // before the controller kick-in: conversions refused
-	params.ControllerKickInBlock + 10,          // conversions allowed, pre everything else
-	params.KawPowForkBlock + 5,                 // conversion hold interval after KawPow
+	100,                               // before the controller kick-in: conversions refused
+	params.ControllerKickInBlock + 10, // conversions allowed, pre everything else
+	params.KawPowForkBlock + 5,        // conversion hold interval after KawPow
 	params.KawPowForkBlock + params.KQuaiChangeHoldInterval + 5,
 	params.ShaEquivalentDifficultyForkBlock - 1, // last block with the un-reverted lockup error path
 	params.ShaEquivalentDifficultyForkBlock + 5, // hold interval, lockup errors reverted
@@ -121,16 +121,20 @@ func (c *stubChain) GetHeaderOrCandidateByHash(h common.Hash) *types.WorkObject 
 	}
 	return nil
 }
-func (c *stubChain) NodeCtx() int                                  { return common.ZONE_CTX }
-func (c *stubChain) IsGenesisHash(common.Hash) bool                { return false }
-func (c *stubChain) GetHeaderByHash(h common.Hash) *types.WorkObject { return c.GetHeaderOrCandidateByHash(h) }
-func (c *stubChain) GetBlockByHash(h common.Hash) *types.WorkObject  { return c.GetHeaderOrCandidateByHash(h) }
+func (c *stubChain) NodeCtx() int                   { return common.ZONE_CTX }
+func (c *stubChain) IsGenesisHash(common.Hash) bool { return false }
+func (c *stubChain) GetHeaderByHash(h common.Hash) *types.WorkObject {
+	return c.GetHeaderOrCandidateByHash(h)
+}
+func (c *stubChain) GetBlockByHash(h common.Hash) *types.WorkObject {
+	return c.GetHeaderOrCandidateByHash(h)
+}
 func (c *stubChain) CheckIfEtxIsEligible(mask common.Hash, to common.Location) bool {
 	return IsEligible(mask, to)
 }
 func (c *stubChain) CheckInCalcOrderCache(common.Hash) (*big.Int, int, bool) { return nil, 0, false }
 func (c *stubChain) AddToCalcOrderCache(common.Hash, int, *big.Int)          {}
-func (c *stubChain) CalcBaseFee(*types.WorkObject) *big.Int                   { return big.NewInt(0) }
+func (c *stubChain) CalcBaseFee(*types.WorkObject) *big.Int                  { return big.NewInt(0) }
 
 // CalcOrder says the parent is a prime block, so that the parent itself is the prime terminus
 // whose EtxEligibleSlices the block context uses.
